@@ -53,7 +53,7 @@ def generate(tape, tier="quick"):
                 b["axes"][k] = [x + 0.25 for x in b["axes"][k]]
     coef = [tape.choice([0.0, 1.0, 5.0])] + [tape.choice([1.0, 10.0, 100.0, -2.0]) for _ in range(3)]
     return {"engine": "G2", "a": a, "b": b, "rel": rel, "coef": coef, "masked": tape.chance(1, 3),
-            "scale": tape.chance(1, 4), "npub": tape.rng_int(1, 3), "units": tape.choice([("m", "m"), ("m", "km"), ("", "")])}
+            "scale": tape.chance(1, 4), "npub": tape.rng_int(1, 3), "static": tape.chance(1, 4), "units": tape.choice([("m", "m"), ("m", "km"), ("", "")])}
 
 
 def execute(sc):
@@ -93,8 +93,9 @@ def execute(sc):
         return result(sc, viol, False, ma, mb)
     # ---- the link
     us, uc = sc["units"]
-    out = Output(name="src", info=Info(time=dt(0), grid=ga, units=us))
-    inp = Input(name="dst", info=Info(time=dt(0), grid=gb, units=uc))
+    static = bool(sc.get("static"))
+    out = Output(name="src", info=Info(time=None if static else dt(0), grid=ga, units=us), static=static)
+    inp = Input(name="dst", info=Info(time=None if static else dt(0), grid=gb, units=uc), static=static)
     f = 1.0
     if sc["scale"]:
         out >> Scale(2.0) >> inp
@@ -109,8 +110,10 @@ def execute(sc):
         return result(sc, viol, True, ma, mb)
     conv = {"m": 1.0, "km": 0.001, "": 1.0}[uc] / {"m": 1.0, "km": 0.001, "": 1.0}[us]
     fb = mb.field(coef)
-    for k in range(sc["npub"]):
-        data = fa + 1000.0 * k
+    for k in range(sc["npub"] if not static else 3):
+        # static slots: one publication, pulled three times (the cached value must stay the converted one)
+        kk = 0 if static else k
+        data = fa + 1000.0 * kk
         mask_a = None
         if sc["masked"]:
             mask_a = (np.round(fa * 7.3) % 3 == 0)
@@ -118,14 +121,15 @@ def execute(sc):
         else:
             payload = data.copy()
         try:
-            out.push_data(payload, dt(k))
+            if not static or k == 0:
+                out.push_data(payload, None if static else dt(k))
             got = inp.pull_data(dt(k))
         except Exception as e:
             v("transform-located", type(e).__name__,
               f"publication {k}: link between layouts {('equal' if sc['rel'] == 'same' else 'different')} failed: {type(e).__name__}: {e}")
             break
         arr = got.magnitude
-        want = (fb + 1000.0 * k) * f * conv
+        want = (fb + 1000.0 * kk) * f * conv
         if arr.shape != (1,) + mb.data_shape():
             v("transform-located", "shape", f"publication {k}: delivered shape {arr.shape}, expected {(1,) + mb.data_shape()}")
             break
